@@ -370,7 +370,7 @@ void gen(uint64_t seed, int tier, sim::Plan &p) {
         p.ops.push_back(op);
     } else {
         int n = (int)r.range(3, 40);
-        static const std::vector<int64_t> sz = {0, 1, 2, 7, 8, 15, 16, 17, 31, 32, 33, 63, 64, 65, 100, 255, 256, 257, 1000, 4096};
+        static const std::vector<int64_t> sz = {0, 1, 2, 7, 8, 15, 16, 17, 31, 32, 33, 63, 64, 65, 100, 255, 256, 257, 1000, 4096, 4097, 65536, 100000};
         for (int i = 0; i < n; i++) {
             sim::Op op;
             uint64_t k = r.below(100);
